@@ -39,7 +39,8 @@ Inductive eunit :=
 | EInserter (s : Z)
 | EHook (st : runstate)
 | EDelete
-| ERetry.
+| ERetry
+| ESched (fid : N).                     (* schedule.go: the scheduling process of one foreign ID *)
 
 Definition eunit_eqb (a b : eunit) : bool :=
   match a, b with
@@ -47,6 +48,7 @@ Definition eunit_eqb (a b : eunit) : bool :=
   | EStep s i n, EStep s' i' n' => Z.eqb s s' && Z.eqb i i' && Z.eqb n n'
   | EPoller s, EPoller s' | EInserter s, EInserter s' => Z.eqb s s'
   | EHook a, EHook b => rs_eqb a b
+  | ESched a, ESched b => N.eqb a b
   | _, _ => false
   end.
 
@@ -58,6 +60,7 @@ Definition eunit_code (u : eunit) : N :=
   | EStep s i n => 1000 + 1000 * Z.to_N (Z.abs s) + 10 * Z.to_N i
   | EPoller s => 500000 + Z.to_N (Z.abs s)
   | EInserter s => 700000 + Z.to_N (Z.abs s)
+  | ESched f => 900000 + f
   end%N.
 
 (* ---------- user functions: a small deterministic script language ---------- *)
@@ -85,7 +88,7 @@ Fixpoint eval_beh (b : beh) (attempt : nat) (seed : Z) : bool * action :=
 
 Inductive ufun :=
 | UFStep (s : Z) | UFCallback (s : Z) (j : nat) | UFTimer (s : Z) (j : nat) | UFTimeout (s : Z) (j : nat)
-| UFHook (st : runstate) | UFDelete.
+| UFHook (st : runstate) | UFDelete | UFFilter (fid : N).
 
 Definition ufun_code (u : ufun) : Z :=
   match u with
@@ -95,6 +98,7 @@ Definition ufun_code (u : ufun) : Z :=
   | UFTimeout s j => 4000000 + 1000 * Z.of_nat j + s
   | UFHook st => 5000000 + rs_code st
   | UFDelete => 6000000
+  | UFFilter f => 7000000 + Z.of_N f
   end.
 
 (* ---------- program / configuration ---------- *)
@@ -102,11 +106,26 @@ Record stepcfg := mkStep { sc_status : Z; sc_beh : beh; sc_dests : list Z; sc_pa
 Record cbcfg := mkCb { cb_status : Z; cb_beh : beh; cb_dests : list Z }.
 Record tocfg := mkTo { to_status : Z; to_dur : Z (* < 0: timer function returns the zero time *); to_beh : beh; to_dests : list Z; to_pause : Z }.
 
+(* a schedule: cron specification [sd_spec] (index into the periodic family below), initial value, and a schedule filter
+   answering false on its first [sd_filter] invocations (0 = no filter configured) *)
+Record schedcfg := mkSched { sd_fid : N; sd_spec : Z; sd_seed : Z; sd_filter : Z }.
+
+(* the cron specifications of the harness, as (period, phase) in ns relative to the harness's base instant
+   2023-11-14 22:13:20 UTC:  1 "* * * * *"  2 "*/15 * * * *"  3 "@hourly"  4 "@daily"  5 "0,30 * * * *" *)
+Definition spec_period (id : Z) : Z :=
+  match id with 1 => 60 | 2 => 900 | 3 => 3600 | 4 => 86400 | 5 => 1800 | _ => 60 end * 1000000000.
+Definition spec_phase (id : Z) : Z :=
+  match id with 1 => 20 | 2 => 800 | 3 => 800 | 4 => 80000 | 5 => 800 | _ => 20 end * 1000000000.
+(* cron.Schedule.Next for these specifications: the first tick strictly after t *)
+Definition cron_next (id : Z) (t : Z) : Z :=
+  ((t + spec_phase id) / spec_period id + 1) * spec_period id - spec_phase id.
+
 Record econfig := mkEcfg {
   ec_steps : list stepcfg;
   ec_cbs : list cbcfg;
   ec_tos : list tocfg;
   ec_hooks : list (runstate * nat);     (* hook for a state, failing its first k invocations per run *)
+  ec_scheds : list schedcfg;
   ec_del : Z;                           (* 0 = default marker; 1 = custom delete; 2+k = custom delete failing its first k invocations per run *)
   ec_dpar : Z;                          (* default ParallelCount *)
   ec_dpause : Z;                        (* default PauseAfterErrCount *)
@@ -129,7 +148,8 @@ Inductive pstate :=
 | PIdle                         (* about to await its role *)
 | PRun                          (* holds the role; parked at its boundary call (Recv / ListValid) *)
 | PLag (idx : nat) (e : event) (deadline : Z)   (* received e (log index idx), waiting for the consume lag *)
-| PBackoff (deadline : Z).      (* error back-off, still holding the role *)
+| PBackoff (deadline : Z)       (* error back-off, still holding the role *)
+| PWait (deadline : Z).         (* the scheduler waits for the next cron tick *)
 
 Definition procid := (Z * eunit)%type.   (* (instance, unit) *)
 Definition procid_eqb (a b : procid) : bool := Z.eqb (fst a) (fst b) && eunit_eqb (snd a) (snd b).
